@@ -2,6 +2,14 @@
 import json, sys
 pid = sys.argv[1]
 p = [json.loads(l) for l in open('/verif/properties.jsonl') if json.loads(l)['id'] == pid][0]
+import glob, os
+ideas = []
+for m in sorted(glob.glob('/verif/seeded/%s_*/meta.json' % pid)):
+    n = json.load(open(m)).get('needs_to_manifest', '')
+    ideas.append(' '.join(n.split())[:420])
+taken = ''
+if ideas:
+    taken = '\nALREADY TAKEN by earlier attempts (do not reuse these ideas; find a different mechanism, ideally in a different function or file, and a different kind of trigger):\n' + ''.join('  %d) %s\n' % (i + 1, t) for i, t in enumerate(ideas))
 print(f"""You are helping to evaluate a verification tool for the Python library SamsungLabs/awesomeyaml (a YAML config library: custom tags, priority-based multi-file merging, includes, cross-references, lazy evaluation).
 
 You have your own scratch git worktree of the library at /tmp/wt_{pid} (detached HEAD). Work ONLY inside /tmp/wt_{pid}. Never touch /repo or /verif, and do not read anything under /verif. Run Python as `/venv/bin/python` with the current directory set to /tmp/wt_{pid} (then `import awesomeyaml` resolves to your worktree copy). There is no network.
@@ -13,12 +21,14 @@ This is the semantic property the library is supposed to satisfy:
   Quantified over: {p['quantifier']['text']}
 
 YOUR TASK: write ONE realistic change (a plausible bug a developer could introduce: a refactoring slip, a wrong condition, a dropped update, a reordered statement, an off-by-one, two cooperating edits that each look fine alone...) to the library source under /tmp/wt_{pid}/awesomeyaml/ that BREAKS this property, such that:
-  1. the library still imports and the existing test suite still passes exactly as before. Check with:  cd /tmp/wt_{pid} && /venv/bin/python -m pytest -q -p no:cacheprovider --timeout=900 --continue-on-collection-errors   (before your change it reports "100 passed ... 1 error"; the 1 error is a pre-existing pytest-internal error in tests/function_test.py and must stay exactly like that; the number of passed tests must stay 100);
+  1. the library still imports and the existing test suite still passes exactly as before. Check with:  cd /tmp/wt_{pid} && /venv/bin/python -m pytest -q -p no:cacheprovider --timeout=900 --continue-on-collection-errors   (before your change it reports "262 passed, 1 error"; the 1 error is a pre-existing collection error for tests/function_test.py and must stay exactly like that; the number of passed tests must stay 262);
   2. the breakage needs something SPECIFIC to manifest - e.g. a particular merge history / multi-step sequence of operations, an unusual but valid input (particular nesting depth, key-name coincidence, particular flag/tag combination, index value, ordering), a fault at a particular point, or two cooperating sites - NOT something that ordinary simple use would expose at once. A change that breaks the simplest one-line examples is not wanted;
   3. it is a genuine violation of the property as stated (not merely a change of an error message, not a crash on import, not a change in unrelated behaviour).
 
 First read the relevant source to understand the mechanism, and first confirm that the property actually holds on the unmodified worktree for the inputs of your demonstration.
 
+NOTE on imports: a script placed in _seed/ gets _seed/ (not the worktree root) as sys.path[0], so a bare `import awesomeyaml` there would resolve to a different installed copy. demo.py must therefore start with `import sys, os; sys.path.insert(0, os.path.dirname(os.path.dirname(os.path.abspath(__file__))))` so that it always tests the copy in the worktree it lives in. Also do not use `git stash` (stashes are shared between worktrees) and never use pkill/killall (other jobs run on this machine); use `git apply -R _seed/patch.diff` / `git apply _seed/patch.diff` to switch between the two states.
+{taken}
 DELIVERABLES (all inside /tmp/wt_{pid}/_seed/):
   - patch.diff : output of `git diff` for your change (only files under awesomeyaml/; do NOT include _seed/ or tests in it);
   - demo.py : a small self-contained program, run as `cd /tmp/wt_{pid} && /venv/bin/python _seed/demo.py`, that exits 0 and prints PASS when the property holds on its inputs and exits 1 printing FAIL (with what was observed vs expected) when it does not. It must FAIL with your change applied and PASS without it (verify both, using `git stash` / `git apply -R` or similar), and it must only use the public behaviour described by the property (build configs, merge, evaluate, dump/parse, container operations ...), not internals that your patch renamed;
